@@ -600,7 +600,12 @@ class Registry:
     sym_sum = _unsupported("sum over a symbolic-length sequence")
     sym_all = _unsupported("all() over a symbolic-length sequence")
     tensor_all = _unsupported("torch.all over a symbolic shape")
-    tensor_sum = _unsupported("tensor sum over a symbolic shape")
+    def tensor_sum(self, I, x, dim=None):
+        if dim is not None:
+            raise Unsupported("tensor sum along a dimension of a symbolic shape")
+        I.session.note("torch.sum over a symbolic shape: value uninterpreted")
+        v = I.ctx.fresh("tensor_sum", "real")
+        return T.LamTensor((), lambda: v, "real")
     tensor_max = _unsupported("tensor max over a symbolic shape")
     tensor_equal = _unsupported("torch.equal over a symbolic shape")
     tensor_view = _unsupported("tensor view/reshape")
